@@ -85,6 +85,11 @@ def fix(c):
     if c['L'] == 1:
         # one level: only the first entry of a per-level list matters
         c['quad'], c['node_type'] = tuple(c['quad'][:1]), tuple(c['node_type'][:1])
+    # a LOBATTO rule needs two nodes (time-parallel hierarchies lose one node per level, the others keep M)
+    for lev in range(c['L']):
+        n_nodes = c['M'] - lev if (c['kind'] == 'time' and c['L'] > 1) else c['M']
+        if c['quad'][min(lev, len(c['quad']) - 1)] == 'LOBATTO' and n_nodes < 2:
+            return None
     if c['kind'] in ('time', 'spacetime') and c['P'] > 1 and 'GAUSS' in c['quad']:
         return None  # refused at construction (several steps need the right end point as node); C20's subject
     if c['kind'] == 'time':
